@@ -125,6 +125,8 @@ THEOREMS = [
     'NSV.C15.degree_tables_agree', 'NSV.C15.mods_rebuild', 'NSV.C15.candidate_denotes',
     'NSV.C15.bass_is_lowest', 'NSV.C15.name_denotes', 'NSV.C15.name_or_error', 'NSV.C15.name_error_iff',
     'NSV.C15.parse_consistent',
+    'NSV.C15.steps_midi_spelling', 'NSV.C15.pitchClassToMidi_spelled', 'NSV.C15.pitchClassToMidi_respell',
+    'NSV.C15.root_bass_spelled', 'NSV.C15.readers_respell',
 ]
 
 
@@ -234,6 +236,8 @@ def layout(kind, pcs, bass, rng):
         return [60 + bass] + sorted(60 + bass + (p - bass) % 12 for p in rest)
     if kind == 'D':      # descending list, bass last
         return [p + 72 for p in reversed(rest)] + [bass + 36]
+    if kind == 'E':      # both ends of the MIDI range: bass in octave 0 (pitches 0..11), the others as high as 127 allows
+        return [p + 12 * ((127 - p) // 12) for p in rest] + [bass]
     # 'R': random octaves, doublings, shuffled; bass lowest (sometimes below 0)
     lo = rng.choice([24, 24, 36, 12, -12]) + bass
     out = [lo]
@@ -246,7 +250,28 @@ def layout(kind, pcs, bass, rng):
     return out
 
 
-ROOT_ALTERS = ['', '#', 'b', '##', 'bb', '###', 'bbbb']
+ROOT_ALTERS = ['', '#', 'b', '##', 'bb', '###', 'bbbb', 'bbb', '####', '#' * 11, 'b' * 11, '#' * 12, 'b' * 12, '#' * 13, 'b' * 13,
+               '#' * 25, 'b' * 40]
+
+
+def accidentals(n):
+    return '#' * n if n >= 0 else 'b' * -n
+
+
+def spelling_figures(csl, rng, thorough):
+    """every letter with 0..14 (and 24, 36) sharps and flats as root and as bass, on a few kinds: the first and
+    last values of the alteration range the chord grammar allows ('any number of # or b')"""
+    kinds = list(csl._CHORD_KINDS_BY_ABBREV)
+    out = []
+    for step in 'ABCDEFG':
+        for n in list(range(-14, 15)) + [-36, -24, 24, 36]:
+            ks = kinds if thorough else rng.sample(kinds, 2)
+            for kind in ks:
+                out.append(step + accidentals(n) + kind)
+            out.append('%s%s%s/%s%s' % (rng.choice('ABCDEFG'), rng.choice(['', '#', 'b']), rng.choice(kinds), step, accidentals(n)))
+            out.append('%s%s%s%s/%s%s' % (step, accidentals(n), rng.choice(kinds), rng.choice(MOD_STRINGS),
+                                            rng.choice('ABCDEFG'), accidentals(rng.choice([-13, -3, -2, 0, 1, 3, 12]))))
+    return out
 
 
 def gen_figure(csl, rng):
@@ -275,7 +300,8 @@ MOD_STRINGS = ['', '(add2)', '(add9)', '(#9)', '(b9)', '(#11)', '(b13)', '(add13
 
 MALFORMED = ['', 'N.C.', 'H', 'c', 'C#b', 'Cb#', 'Cfoo', 'C(add##7)', 'C(addbb7)', 'C/', 'C//E', 'C/E/G', 'C7(9)',
              'C(add)', 'C(no)', 'Cm7b', 'C m', ' C', 'C ', 'Cmaj7(add x)', 'C()', 'C(add2))', 'C((add2)', 'C/e',
-             'Cmaj7/Ebb#', 'C(add٣)', 'C\n', 'C/E\n', 'Csus3', 'C-+', 'CM7M7', '7', '/C', 'C(#)', 'Cadd-2']
+             'Cmaj7/Ebb#', 'C(add٣)', 'C\n', 'C/E\n', 'Csus3', 'C-+', 'CM7M7', '7', '/C', 'C(#)', 'Cadd-2',
+             'C###', 'Dbbb', 'C####b', 'Cbbb#', 'C###/', 'C/E###b', 'C/E####', 'Fbbbbbbbbbbbbb/', 'G############m7b']
 
 
 def gen_malformed(rng):
@@ -294,17 +320,66 @@ def triads(csl):
             csl.CHORD_QUALITY_AUGMENTED: (0, 4, 8), csl.CHORD_QUALITY_DIMINISHED: (0, 3, 6)}
 
 
+WHITE_KEYS = {'C': 0, 'D': 2, 'E': 4, 'F': 5, 'G': 7, 'A': 9, 'B': 11}
+
+
+def spelled(fig):
+    """(root, bass) pitch classes as WRITTEN in the figure, read without the library: the leading letter
+    with its run of sharps / flats, and the letter after a final '/' (the root when there is none);
+    None when the text does not start with a letter A..G."""
+    def pc(letter, acc):
+        return (WHITE_KEYS[letter] + (len(acc) if '#' in acc else -len(acc))) % 12
+    m = re.match(r'([A-G])(#+|b+|)', fig)
+    if not m:
+        return None
+    root = pc(*m.groups())
+    b = re.search(r'/([A-G])(#+|b+|)\n?\Z', fig)
+    return root, (pc(*b.groups()) if b else root)
+
+
+def read_all(csl, fig):
+    """the four readers: {'pitches': ('ok', list) | ('err', name), 'root': ..., 'bass': ..., 'quality': ...}"""
+    return {nm: call(f, fig) for nm, f in (('pitches', csl.chord_symbol_pitches), ('root', csl.chord_symbol_root),
+                                           ('bass', csl.chord_symbol_bass), ('quality', csl.chord_symbol_quality))}
+
+
 def oracle_figure(csl, fig, must_parse):
     """parse-consistency clause of the property on one figure; returns None if it holds, else text.
-    must_parse: the figure was produced by pitches_to_chord_symbol (so it has to be accepted)."""
-    kp, ps = call(csl.chord_symbol_pitches, fig)
+    must_parse: the figure was produced by pitches_to_chord_symbol (so it has to be accepted).
+    The figure is interpreted in a short HISTORY: once, then -- after the caller has used the returned
+    pitch list in place -- a second time; what a symbol denotes must not depend on that."""
+    first = read_all(csl, fig)
+    kp, ps = first['pitches']
+    seen = list(ps) if kp == 'ok' and isinstance(ps, (list, tuple)) else ps
+    bad = _judge_figure(csl, fig, must_parse, first, seen)
+    if bad:
+        return bad
+    # the caller turns the pitch classes into a voicing in place and then drops them
+    if kp == 'ok' and isinstance(ps, list):
+        for i in range(len(ps)):
+            ps[i] += 60
+        ps.append(-1)
+        ps.reverse()
+    second = read_all(csl, fig)
+    if kp == 'ok' and second['pitches'][0] == 'ok' and second['pitches'][1] is ps:
+        return 'chord_symbol_pitches(%r) handed out the same list object twice' % fig
+    want = dict(first, pitches=(kp, seen))
+    if second != want:
+        d = [nm for nm in want if second[nm] != want[nm]][0]
+        return ('chord_symbol_%s(%r) = %r on the second interpretation, %r on the first (the caller modified the first '
+                'returned pitch list in place in between)' % (d, fig, second[d][1], want[d][1]))
+    return None
+
+
+def _judge_figure(csl, fig, must_parse, got, ps):
+    kp = got['pitches'][0]
     if kp == 'err':
         if ps != 'ChordSymbolError':
             return 'chord_symbol_pitches(%r) raised %s' % (fig, ps)
         return 'produced name %r is rejected by the parser' % fig if must_parse else None
     res = {}
-    for nm, f in (('root', csl.chord_symbol_root), ('bass', csl.chord_symbol_bass), ('quality', csl.chord_symbol_quality)):
-        k, v = call(f, fig)
+    for nm in ('root', 'bass', 'quality'):
+        k, v = got[nm]
         if k == 'err':
             return 'chord_symbol_%s(%r) raised %s although the pitches parse' % (nm, fig, v)
         res[nm] = v
@@ -314,6 +389,11 @@ def oracle_figure(csl, fig, must_parse):
             return 'chord_symbol_%s(%r) = %r is not in 0..11' % (nm, fig, v)
     if any(not (isinstance(p, int) and 0 <= p <= 11) for p in ps):
         return 'chord_symbol_pitches(%r) = %r has an entry outside 0..11' % (fig, ps)
+    sp = spelled(fig)
+    if sp is not None:
+        for nm, w in zip(('root', 'bass'), sp):
+            if res[nm] != w:
+                return 'chord_symbol_%s(%r) = %r, but the symbol spells pitch class %d' % (nm, fig, res[nm], w)
     tri = triads(csl)
     qs = set(tri) | {csl.CHORD_QUALITY_OTHER}
     if res['quality'] not in qs:
@@ -328,12 +408,22 @@ def oracle_figure(csl, fig, must_parse):
 
 def oracle_pitches(csl, pitches, result=None):
     """the naming clause on one list of pitches; returns (None | text, figure | None).
-    `result` = what `call(pitches_to_chord_symbol, pitches)` already returned, if the caller has it."""
+    `result` = what `call(pitches_to_chord_symbol, pitches)` already returned, if the caller has it.
+    The namer is called in a short history as well: twice on the same list object, which must come back
+    unchanged (also when the call raises) and must be named the same way both times."""
     if not pitches:
         return None, None
     want = {p % 12 for p in pitches}
     bass = min(pitches) % 12
-    k, fig = result if result is not None else call(csl.pitches_to_chord_symbol, list(pitches))
+    arg = list(pitches)
+    k, fig = call(csl.pitches_to_chord_symbol, arg)
+    if arg != list(pitches):
+        return 'pitches_to_chord_symbol modified its argument: %r -> %r' % (list(pitches), arg), None
+    if result is not None and (k, fig) != tuple(result):
+        return 'pitches_to_chord_symbol(%r) gave %r, then %r' % (pitches, result[1], fig), None
+    k2, fig2 = call(csl.pitches_to_chord_symbol, arg)
+    if (k2, fig2) != (k, fig) or arg != list(pitches):
+        return 'pitches_to_chord_symbol(%r) called twice on the same list: %r, then %r (list afterwards %r)' % (pitches, fig, fig2, arg), None
     if k == 'err':
         if fig != 'ChordSymbolError':
             return 'pitches_to_chord_symbol(%r) raised %s' % (pitches, fig), None
@@ -402,12 +492,12 @@ def corr_names(chk, csl, spy):
     cases = []   # (key, pitches)
     if chk.thorough:
         for mask, pcs, bass in all_cases():
-            for lay in 'ABDR':
+            for lay in 'ABDRE':
                 cases.append(((mask, bass, lay), layout(lay, pcs, bass, rng)))
     else:
         allc = list(all_cases())
         for mask, pcs, bass in rng.sample(allc, 5000):
-            lay = rng.choice('ABDR')
+            lay = rng.choice('ABDRE')
             cases.append(((mask, bass, lay), layout(lay, pcs, bass, rng)))
     cases.append(((0, 0, 'empty'), []))
     reqs, impl, figs, unsorted, results = [], [], [], [], []
@@ -468,17 +558,23 @@ def corr_parse(chk, csl):
             for mods in MOD_STRINGS:
                 figs.append(rng.choice('ABCDEFG') + rng.choice(['', '#', 'b']) + kind + mods
                             + rng.choice(['', '', '/E', '/Bb', '/F##']))
+    figs += spelling_figures(csl, rng, chk.thorough)
     figs += [gen_figure(csl, rng) for _ in range(chk.n(6000, 150000))]
     reqs, impl, keep = [], [], []
     for fig in figs:
         try:
             req, pieces = split_structure(csl, fig)
-        except csl.ChordSymbolError:
-            # a grammar string the real splitter rejects: nothing for the model; oracle only
-            chk.count('parse', fig, False, 'unsplittable')
+        except Exception as e:  # pylint: disable=broad-except
+            # ChordSymbolError: a grammar string the real splitter rejects: nothing for the model; oracle only.
+            # Anything else: the library's own pieces failed on a string of the grammar -- that is for the oracle
+            # to judge on the public readers (a concrete failing figure), not a reason to stop the run.
+            chk.count('parse', fig, False, 'unsplittable' if isinstance(e, csl.ChordSymbolError) else 'split-raises:' + type(e).__name__)
             bad = oracle_figure(csl, fig, False)
             if bad:
                 chk.fail(bad, {'figure': fig})
+            elif not isinstance(e, csl.ChordSymbolError):
+                chk.disagree('parse', {'figure': fig}, 'splitting with the library\'s pieces raised %s: %s' % (type(e).__name__, e),
+                             'the public readers accept the figure')
             continue
         reqs.append(req)
         impl.append(readers(csl, fig))
@@ -489,6 +585,8 @@ def corr_parse(chk, csl):
         hist = ['pitches:' + ('ChordSymbolError' if t[3].startswith('E:') else 'ok'), 'quality:' + t[2]]
         if ''.join(pieces) != fig:
             hist.append('split-loses-text')
+        nacc = max(len(pieces[0]) - 1, len(pieces[3]) - 2)
+        hist.append('accidentals:' + ('0-2' if nacc <= 2 else '3-11' if nacc < 12 else '12+'))
         chk.count('parse', fig, nontrivial=not t[3].startswith('E:'), hist=hist)
         if a != b:
             chk.disagree('parse', {'figure': fig, 'request': req}, a, b)
@@ -504,7 +602,7 @@ def corr_parse(chk, csl):
         fig = gen_malformed(mrng)
         k, v = call(csl.chord_symbol_pitches, fig)
         chk.count('malformed', fig, False, 'parses' if k == 'ok' else 'raises:' + v)
-        bad = oracle_figure(csl, fig, False) if k == 'ok' or v == 'ChordSymbolError' else None
+        bad = oracle_figure(csl, fig, False)     # also judges WHICH exception a rejected string raises
         if bad:
             chk.fail(bad, {'figure': fig})
 
@@ -530,8 +628,8 @@ def known_and_corpus(chk, csl):
             bad = oracle_figure(csl, obj['figure'], False)
             try:
                 req, _ = split_structure(csl, obj['figure'])
-            except csl.ChordSymbolError:
-                req = None
+            except Exception:  # pylint: disable=broad-except
+                req = None     # the oracle above has judged the figure on the public readers
             a = readers(csl, obj['figure'])
         chk.count('corpus', name, True, 'fails' if bad else 'holds')
         if bad:
